@@ -1,7 +1,7 @@
 SPECIFICATION Spec
 CONSTANTS MaxNum = 3
-  Vals = {"a"}
-  OBJSTM = FALSE
+  Vals = {"a", "b"}
+  OBJSTM = TRUE
   SEEKABLE = FALSE
   MaxOps = 4
   Threshold = 2
